@@ -30,8 +30,9 @@ DspBasesQuick == { << <<0, 0>>, <<0, 1>> >>, << <<0, 1>>, <<0, 0>> >>, << <<B-1,
 \* ---- one or both sides external (needs B >= 8 so that step 4 = one 32-bit unit exists)
 ExtModes == { <<0, 7, 0>>, <<0, 7, 1>>, <<7, 0, 0>>, <<7, 0, 1>>, <<7, 7, 0>>, <<7, 7, 1>> }
 AhbmNat  == (0..2) \X (0..2)          \* unit 8/16/32 x burst 1/4/8
+AhbmQuick == { <<0, 0>>, <<1, 0>>, <<1, 1>>, <<1, 2>>, <<2, 0>>, <<2, 2>> }
 AhbmAll  == (0..3) \X (0..3)          \* plus the unknown encodings
-ExtPairsQuick == Uni({1, 2, 4}) \cup { << <<2, 4, B-1>>, <<4, 2, 0>> >>, << <<4, 4, 2>>, <<2, 2, 4>> >> }
+ExtPairsQuick == Uni({1, 2, 4}) \cup { << <<2, 4, B-1>>, <<4, 2, 0>> >> }
 ExtPairs      == Uni({0, 1, 2, 4, B-1}) \cup { <<t, Rot(t)>> : t \in Trip({1, 2, 4}) }
 ExtBasesQuick == { << <<0, 0>>, <<0, 4>> >>, << <<0, 3>>, <<0, 1>> >> }
 ExtBases      == { << <<0, 0>>, <<0, 4>> >>, << <<0, 4>>, <<0, 0>> >>, << <<0, 3>>, <<0, 1>> >>,
